@@ -49,6 +49,9 @@ REFUTED_FILES = ['Refuted/C01.v']
 MODEL_FILES = ['SF/Heap.v', 'SF/HeapAudit.v', 'SF/HeapGrow.v', 'Gen/Gen_c01.v']
 GENERATED_FILES = ['Gen/Gen_c01.v']
 IMPORTS = 'Require Import SF.Prelude SF.Heap SF.HeapGrow Gen.Gen_c01.\nLocal Open Scope nat_scope.'
+# the specification side (S_step, gS_step and the comparers) lives in SF/Heap.v and SF/HeapGrow.v, which do not import the regenerated tables;
+# the S terms of the cases spell pickle flags literally (S ignores them: value semantics always re-freezes)
+IMPORTS_SPEC_ONLY = 'Require Import SF.Prelude SF.Heap SF.HeapGrow.\nLocal Open Scope nat_scope.'
 RULE = ('grow strata: a history over GNew / GFrom / GGrow, each step a public call; the model route is GShare only between two static containers; '
         'non-trivial = some container is built from another and something grows afterwards. large-phase: one case per freshly built small container after '
         'each regrow of the allocator; non-trivial = the allocator really regrew. heap strata: a history is a list of steps of the model alphabet (SNew / SView / SFreeze / SWrite / SConstruct / SDerive / SExpose / SFail), each '
@@ -130,7 +133,8 @@ class Sim:
         self.TB = TypeBlocks
         self.callers = []       # ndarrays the caller holds
         self.conts = []         # (kind, object)
-        self.steps = []         # Coq literals
+        self.steps = []         # Coq literals (may name definitions of the regenerated Gen_c01)
+        self.steps_spec = []    # the same steps spelled without any regenerated name (for the S terms)
         self.desc = []          # human readable replay
         self.trace = []         # (ok, conts_obs, callers_obs)
         self.first = []         # first observation of each container (python-side immutability check)
@@ -211,9 +215,10 @@ class Sim:
         elif op == 'expose':
             self.mc.append(list(self.mk[mstep[1]][mstep[2]]))
 
-    def emit(self, step, desc, ok=True, mstep=('none',)):
+    def emit(self, step, desc, ok=True, mstep=('none',), step_spec=None):
         self.model(mstep)
         self.steps.append(step)
+        self.steps_spec.append(step_spec or step)
         self.desc.append(desc)
         self.observe(ok)
 
@@ -419,6 +424,8 @@ class Sim:
         kind, obj = self.conts[c]
         new = pickle.loads(pickle.dumps(obj))
         tab = _setstate()
+        if tab is None:     # the extractor failed closed: classify with what the property demands (every slot re-frozen)
+            tab = {'Index': [('_labels', True), ('_positions', True)], 'Series': [('values', True)], 'TypeBlocks': [('_blocks', True)]}
         idx = [f for _, f in tab['Index']]
         if kind == 'tb':
             flags = f'(repeat pickle_flag_block {len(obj._blocks)})'
@@ -432,7 +439,8 @@ class Sim:
             self.flags.add('pickle_index')      # a slot that __setstate__ does not re-freeze (read from the current source)
         self.conts.append((kind, new))
         self.emit(f'SDerive {c} (pickle_dsrcs_from 0 {flags})', f'c{len(self.conts) - 1} = pickle.loads(pickle.dumps(c{c}))',
-                  mstep=('derive', c, [('pickle', j, f) for j, f in enumerate(pf)]))
+                  mstep=('derive', c, [('pickle', j, f) for j, f in enumerate(pf)]),
+                  step_spec=f'SDerive {c} (pickle_dsrcs_from 0 [' + '; '.join('true' for _ in pf) + '])')
 
     def d_deepcopy(self, c):
         kind, obj = self.conts[c]
@@ -477,8 +485,8 @@ class Sim:
         self.emit(f'SExpose {c} {j}', f'a{len(self.callers) - 1} = c{c}.{txt}', mstep=('expose', c, j))
 
     # ---- result
-    def hist_lit(self):
-        return '[' + '; '.join(self.steps) + ']'
+    def hist_lit(self, spec=False):
+        return '[' + '; '.join(self.steps_spec if spec else self.steps) + ']'
 
     def trace_lit(self):
         return '[' + '; '.join(f'({lit.b(ok)}, {obs_lit(conts, callers)})' for ok, conts, callers in self.trace) + ']'
@@ -491,9 +499,13 @@ _SETSTATE = {}
 
 
 def _setstate():
+    '''The table read from the current source, or None when the extractor fails closed (the source no longer has the expected shape).'''
     from ..core import REPO
     if REPO not in _SETSTATE:
-        _SETSTATE[REPO] = setstate_table(REPO)
+        try:
+            _SETSTATE[REPO] = setstate_table(REPO)
+        except Exception:  # noqa: reported by generate() as a broken obligation; case generation must go on for the failing-input search
+            _SETSTATE[REPO] = None
     return _SETSTATE[REPO]
 
 
@@ -565,7 +577,7 @@ def random_history(rng, sim, length, allow):
             elif which == 'compute':
                 sim.d_compute(c)
             elif which == 'pickle':
-                if kind != 'tb' and not all(f for _, f in _setstate()['Index']) and 'pickle_index' not in allow:
+                if kind != 'tb' and _setstate() is not None and not all(f for _, f in _setstate()['Index']) and 'pickle_index' not in allow:
                     continue
                 sim.d_pickle(c)
             else:
@@ -581,7 +593,7 @@ def history_case(sim, stratum, guarded, spec=True, **extra_tags):
     guarded = not sim.flags
     g = 'guarded w0 H' if guarded else 'negb (guarded w0 H)'
     m = f'(let H := {h} in trace_eqb (trace M_step w0 H) {t} && oshares_eqb (shares_obs (M_run w0 H)) {sh} && {g})%nat'
-    s = f'(trace_eqb (trace S_step w0 {h}) {t})%nat' if spec else None
+    s = f'(trace_eqb (trace S_step w0 {sim.hist_lit(spec=True)}) {t})%nat' if spec else None
     nontrivial = any(st.startswith('SConstruct [FromCaller') for st in sim.steps) and any(st.startswith(('SWrite', 'SExpose', 'SDerive')) for st in sim.steps)
     tags = {'stratum': stratum}
     tags.update(extra_tags)
